@@ -788,6 +788,53 @@ def check_comments(ctx):
             ctx.undecided(rule, t.func, st, 'cannot follow where the text of the annotation hole (%s) comes from' % src[:60], t.lineno, clause='f')
         else:
             ctx.violation(rule, t.func, st, 'the annotation hole is %s' % ('not alone on its line' if not alone else 'filled with something other than the source map (%s)' % src[:80]), t.lineno, clause='f', witness=not alone)
+    # a template that reaches '%' through a helper which glues other text to it: that text becomes
+    # part of the format string
+    cg = repo.cls('CodeGenerator')
+    for fi in cg.methods.values():
+        for node in ast.walk(fi.node):
+            if isinstance(node, ast.BinOp) and isinstance(node.op, ast.Mod) and isinstance(node.right, ast.Dict) and isinstance(node.left, ast.BinOp) and isinstance(node.left.op, ast.Add):
+                ops_ = []
+
+                def flat_(e):
+                    if isinstance(e, ast.BinOp) and isinstance(e.op, ast.Add):
+                        flat_(e.left); flat_(e.right)
+                    else:
+                        ops_.append(e)
+                flat_(node.left)
+                lits_ = [o for o in ops_ if isinstance(o, ast.Constant) and isinstance(o.value, str) and '%(' in o.value]
+                other_ = [o for o in ops_ if not isinstance(o, ast.Constant)]
+                if lits_ and other_:
+                    n += 1
+                    ctx.violation(rule, fi, 'template at line %d: (%s + <template>) %% {...}' % (node.lineno, canon(other_[0])[:50]), 'text computed at generation time (%s: the source lines of the fields) is glued to the template before it is formatted and so becomes part of the format string: a "%%" in a declaration comment makes the generated variant of the class fail to build while the field loop works' % canon(other_[0])[:50], node.lineno, clause='f', witness=True)
+                continue
+            if not (isinstance(node, ast.BinOp) and isinstance(node.op, ast.Mod) and isinstance(node.right, ast.Dict) and isinstance(node.left, ast.Call)):
+                continue
+            call = node.left
+            tpl = [a for a in call.args if isinstance(a, ast.Constant) and isinstance(a.value, str) and '%(' in a.value]
+            if not tpl or not (isinstance(call.func, ast.Attribute) and canon(call.func.value) == 'self' and call.func.attr in cg.methods):
+                continue
+            h = cg.methods[call.func.attr]
+            params = [a.arg for a in h.node.args.args][1:]
+            tparam = params[call.args.index(tpl[0])] if call.args.index(tpl[0]) < len(params) else None
+            glued = []
+            for r in ast.walk(h.node):
+                if isinstance(r, ast.Return) and r.value is not None:
+                    ops = []
+                    def flat(e):
+                        if isinstance(e, ast.BinOp) and isinstance(e.op, ast.Add):
+                            flat(e.left); flat(e.right)
+                        else:
+                            ops.append(e)
+                    flat(r.value)
+                    if any(isinstance(o, ast.Name) and o.id == tparam for o in ops):
+                        glued += [o for o in ops if not (isinstance(o, ast.Name) and o.id == tparam) and not isinstance(o, ast.Constant)]
+            st = 'template at line %d: %s(..., <template>) %% {...}' % (node.lineno, h.qual)
+            n += 1
+            if glued:
+                ctx.violation(rule, fi, st, 'the helper glues %s in front of / behind the template before it is formatted: that text (the source lines of the fields) becomes part of the format string, so a "%%" in a declaration comment makes the generated variant of the class fail to build while the field loop works' % canon(glued[0])[:60], node.lineno, clause='f', witness=True)
+            else:
+                ctx.undecided(rule, fi, st, 'the format string of a block template is produced by a helper', node.lineno, clause='f')
     pb = repo.cls('PacketClassBuilder')
     cf = pb.methods.get('collect_fields_sourcecode')
     if cf is None:
@@ -949,6 +996,10 @@ def check(ctx):
     check_struct_code_owners(ctx)
     check_hook_siblings(ctx)
     check_driver_holes(ctx)
+    # the unrolled sync calls of the generated drivers run every hook of the phase, each once,
+    # indexed as the list get_sync_*_methods() returns them (C17-c): the generic loop does
+    from .c17 import check_generated_sync
+    check_generated_sync(ctx)
     # what the class runs is the text generated for it: a module taken from the cache is installed
     # only after its cookie was compared (C15 V); otherwise the class silently runs the drivers of
     # another declaration while its generic twin is right
